@@ -54,7 +54,7 @@ def run(s):
             if replay is not None:
                 C01.attach_replay(r, *replay)
             return r
-        return s.oblige(name, ob, functions)
+        return s.oblige(name, ob, functions, fallback=(lambda: C01.fallback_battery(*replay)) if replay is not None else None)
 
     with env.active():
         for kind, cls, c in (("longitudinal", L, 5), ("off_diagonal", O, 15)):
